@@ -49,6 +49,8 @@ type Explorer struct {
 	errs             []string
 	inlined          map[string]int
 	forkCount        map[string]int
+	atCallSeen       map[string]bool // callees of `at call` clauses that some path reached
+	bounded          map[string]int  // bounded stand-ins used while exploring this function
 }
 
 type engineError struct{ msg string }
@@ -495,16 +497,27 @@ func (x *Explorer) jump(st *State, f *Frame, to *ssa.BasicBlock) {
 		return
 	}
 	// leaving loops
+	for h := range f.unroll {
+		if li := x.eng.loopAt(f.fn, h); li != nil && li.Body[from] && !li.Body[to] {
+			nu := make(map[*ssa.BasicBlock]int, len(f.unroll))
+			for k, v := range f.unroll {
+				if k != h {
+					nu[k] = v
+				}
+			}
+			f.unroll = nu
+		}
+	}
 	for h, al := range f.loops {
 		if al.info.Body[from] && !al.info.Body[to] {
 			delete(f.loops, h)
 			if f.contract != nil && len(st.frames) == 1 {
-				if cls := f.contract.LoopAfter[al.info.Ord]; len(cls) > 0 {
+				if cls := f.contract.LoopAfter[x.eng.contractLoopOrd(f, al.info)]; len(cls) > 0 {
 					env := x.specEnv(st, f, f.contract)
 					for _, cl := range cls {
 						if !st.dry {
-							if g, ok := x.goalOf(st, env, cl, "after-loop", fmt.Sprintf("loop#%d", al.info.Ord)); ok {
-								x.emit(st, "after-loop", cl.Label, fmt.Sprintf("loop#%d", al.info.Ord), g, cl.Where)
+							if g, ok := x.goalOf(st, env, cl, "after-loop", fmt.Sprintf("loop#%d", x.eng.contractLoopOrd(f, al.info))); ok {
+								x.emit(st, "after-loop", cl.Label, fmt.Sprintf("loop#%d", x.eng.contractLoopOrd(f, al.info)), g, cl.Where)
 							}
 						}
 						x.assumeClause(st, env, cl)
@@ -548,7 +561,7 @@ func (x *Explorer) unop(st *State, f *Frame, i *ssa.UnOp) Val {
 		return VInt{T: UF("bitnot", SInt, asInt(v))}
 	case token.ARROW:
 		x.timerFired(st, st.top(), i.X)
-		return x.recv(st, v, i.Type(), i.CommaOk)
+		return x.recv(st, x.chanExprName(st.top(), i.X), i.Type(), i.CommaOk)
 	}
 	x.fail("unop %s", i.Op)
 	return nil
@@ -1183,20 +1196,21 @@ func (x *Explorer) doNext(st *State, f *Frame, i *ssa.Next) {
 
 // ---- channels -----------------------------------------------------------------------
 
-func (x *Explorer) recv(st *State, ch Val, t types.Type, commaOk bool) Val {
+func (x *Explorer) recv(st *State, name string, t types.Type, commaOk bool) Val {
 	var vt types.Type = t
 	if commaOk {
 		vt = t.(*types.Tuple).At(0).Type()
 	}
 	v := st.freshVal(vt, "recv")
-	x.ghostCount(st, "recv:"+chanName(ch))
+	x.ghostCount(st, "recv:"+name)
 	if commaOk {
-		return VTuple{E: []Val{v, VInt{T: st.freshSym("recv_ok", SBool)}}}
+		// recvOpen("name"): whether the last receive got a value (false: the channel was closed and drained)
+		ok := VInt{T: st.freshSym("recv_ok", SBool)}
+		st.ghosts["recv:"+name+".ok"] = ok
+		return VTuple{E: []Val{v, ok}}
 	}
 	return v
 }
-
-func chanName(ch Val) string { return "chan" }
 
 // timerFired: a receive from t.C of a *time.Timer consumes the timer - it will not fire again
 // until it is Reset (model field Timer.armed; a Ticker keeps firing and needs nothing).
